@@ -46,6 +46,10 @@ def jobs(tier, seed):
         out.append({"kind": "connect", "cls": c})
     for c in CLASSES:
         out.append({"kind": "persist-effect", "cls": c})
+    # the host option of the TCP classes against a real device on the loopback interface, IPv4 and IPv6
+    for fl in ("threaded", "asyncio"):
+        for host in ("127.0.0.1", "::1"):
+            out.append({"kind": "real-host", "flavour": fl, "host": host})
     return out
 
 
@@ -456,14 +460,25 @@ def run_persist_effect(job, res):
     clsname = job["cls"]
     tmp = tempfile.mkdtemp(prefix="vf-c18-")
     try:
-        for with_cb in (True, False):
-            for ext in ("json", "pickle"):
-                path = os.path.join(tmp, f"net-{with_cb}.{ext}")
-                kw = {"persistence": True, "persistence_file": path, "protocol_version": "2.0"}
+        os.makedirs(os.path.join(tmp, "some_folder"), exist_ok=True)
+        combos = [(with_cb, ext, "absolute") for with_cb in (True, False) for ext in ("json", "pickle")]
+        # the documented spellings of the file option: a bare file name, the README's 'some_folder/mysensors.pickle' (both
+        # relative to the working directory) and no file option at all (default 'mysensors.pickle')
+        combos += [(True, "json", "bare"), (False, "pickle", "bare"), (True, "pickle", "subdir"), (True, "pickle", "default")]
+        cwd0 = os.getcwd()
+        for with_cb, ext, spelling in combos:
+            if True:
+                os.chdir(tmp)
+                path = {"absolute": os.path.join(tmp, f"net-{with_cb}.{ext}"), "bare": f"bare-{with_cb}.{ext}",
+                        "subdir": f"some_folder/mysensors.{ext}", "default": None}[spelling]
+                kw = {"persistence": True, "protocol_version": "2.0"}
+                if path is not None:
+                    kw["persistence_file"] = path
                 if with_cb:
                     kw["event_callback"] = None
-                case = {"kind": "persist-effect", "cls": clsname, "event_callback": with_cb, "ext": ext}
+                case = {"kind": "persist-effect", "cls": clsname, "event_callback": with_cb, "ext": ext, "file_spelling": spelling}
                 res.evals += 1
+                res.count(f"persistence_file_spelling:{spelling}")
                 loop = VLoop() if clsname.startswith("Async") else None
 
                 def call(coro_or_none):
@@ -504,18 +519,62 @@ def run_persist_effect(job, res):
                 finally:
                     if loop is not None:
                         loop.close()
+                    os.chdir(cwd0)
                 res.count("persistence_effects_judged")
-                res.nontrivial((clsname, with_cb, ext))
+                res.nontrivial((clsname, with_cb, ext, spelling))
                 if got != held:
-                    res.violation(f"option-ignored:persistence:{'with' if with_cb else 'without'}-callback",
-                                  f"{clsname}(persistence=True, persistence_file=*.{ext}{', event_callback=...' if with_cb else ''}): the state held at stop() is not restored at the next start", case)
+                    res.violation(f"option-ignored:persistence:{'with' if with_cb else 'without'}-callback" + ("" if spelling == "absolute" else f":{spelling}-file"),
+                                  f"{clsname}(persistence=True, persistence_file={path!r}{', event_callback=...' if with_cb else ''}): the state held at stop() is not restored at the next start", case)
     finally:
+        os.chdir(cwd0)
         shutil.rmtree(tmp, ignore_errors=True)
     res.sample({"kind": "persist-effect", "cls": clsname})
 
 
+def run_real_host(job, res):
+    """host / port of the TCP classes take effect: a real device listening on that address gets the connection and its
+    request is answered (anomalies must reproduce on two re-runs: wall-clock run)."""
+    from .. import realdev as R
+
+    fl, host = job["flavour"], job["host"]
+    cls = "TCPGateway" if fl == "threaded" else "AsyncTCPGateway"
+
+    def once():
+        try:
+            ev, meta = R.run_real("tcp", fl, ["traffic"], rt=0.4, host=host)
+        except OSError as exc:
+            if exc.errno in (1, 13, 97, 99, 2, 19):
+                return None, repr(exc)
+            raise
+        made = sum(1 for e in ev if e[1] == "MADE")
+        accepted = sum(1 for e in ev if e[1] == "ACCEPT")
+        answered = any(e[1] == "RX" and b";255;3;0;6;" in e[3] for e in ev)
+        return (made, accepted, answered), None
+
+    r, un = once()
+    if un:
+        res.count("real_device_unavailable")
+        res.notes.append(f"real-host sample unavailable here ({host}): {un}")
+        return
+    res.evals += 1
+    res.count("real_host_connections")
+    res.count(f"real_host_connections[{'ipv6' if ':' in host else 'ipv4'}]")
+    res.nontrivial(("real-host", fl, host))
+    if not (r[0] >= 1 and r[1] >= 1 and r[2]):
+        again = [once()[0] for _ in range(2)]
+        if all(a is not None and not (a[0] >= 1 and a[1] >= 1 and a[2]) for a in again):
+            res.violation(f"option-ignored:host:{'ipv6' if ':' in host else 'ipv4'}:{fl}",
+                          f"{cls}({host!r}, port=<device port>): on_conn_made calls {r[0]}, connections accepted by the device {r[1]}, request answered {r[2]}",
+                          {"kind": "real-host", "flavour": fl, "host": host})
+        else:
+            res.count("real_anomalies_not_reproduced")
+
+
 def run(job):
     res = Result()
+    if job["kind"] == "real-host":
+        run_real_host(job, res)
+        return res
     if job["kind"] == "persist-effect":
         run_persist_effect(job, res)
         return res
@@ -527,7 +586,9 @@ def run(job):
 def replay(case):
     res = Result()
     k = case["kind"]
-    if k == "persist-effect":
+    if k == "real-host":
+        r = run({"kind": k, "flavour": case["flavour"], "host": case["host"]})
+    elif k == "persist-effect":
         r = run({"kind": k, "cls": case["cls"]})
     elif k == "subsets" or k == "connect":
         r = run({"kind": k, "cls": case["cls"], "seed": 0})
@@ -563,8 +624,11 @@ def finish(agg, tier):
         "floors": [("constructed", c.get("constructed", 0), 1200), ("gateway_versions_judged", c.get("gateway_versions_judged", 0), 260),
                    ("node_versions_judged", c.get("node_versions_judged", 0), 200), ("readme_snippets_run", c.get("readme_snippets_run", 0), 2),
                    ("connect_attempts_observed", c.get("connect_attempts_observed", 0), 8), ("mqtt_publish_checks", c.get("mqtt_publish_checks", 0), 200),
+                   ("persistence_file_spelling:bare", c.get("persistence_file_spelling:bare", 0), 12), ("persistence_file_spelling:default", c.get("persistence_file_spelling:default", 0), 6)]
+                  + ([] if c.get("real_device_unavailable") else [("real_host_connections[ipv6]", c.get("real_host_connections[ipv6]", 0), 2),
+                                                                  ("real_host_connections[ipv4]", c.get("real_host_connections[ipv4]", 0), 2)]) + [
                    ("persistence_effects_judged", c.get("persistence_effects_judged", 0), 24)],
         "assumptions": ["documented options = README + constructor signatures; 2.0 and 2.1 tables are behaviourally identical and "
                         "are judged as one class; 'v2.2', '2.2.0-rc1', 2 and '2' are executed but their table is not judged"],
-        "show": ["constructed", "gateway_versions_judged", "node_versions_judged", "readme_snippets_run", "connect_attempts_observed"],
+        "show": ["constructed", "gateway_versions_judged", "node_versions_judged", "readme_snippets_run", "connect_attempts_observed", "real_host_connections"],
     }
